@@ -10,6 +10,11 @@ Definition run (prop : bytes) (ops : list (list tok)) : list (list tok) :=
           || beq prop (bs "C18") || beq prop (bs "C07") || beq prop (bs "C08") || beq prop (bs "C05")
           || beq prop (bs "C02") || beq prop (bs "C06") || beq prop (bs "C15") || beq prop (bs "C16") then run_srv ops
   else if beq prop (bs "C12") then run_c12 ops
-  else if beq prop (bs "C14") then run_c14 ops
+  else if beq prop (bs "C14") then
+    (* in-process PubSubManager histories, or server-level histories over TCP (first op CONN) *)
+    match ops with
+    | (TB n :: _) :: _ => if beq n (bs "CONN") then run_srv ops else run_c14 ops
+    | _ => run_c14 ops
+    end
   else if beq prop (bs "C19") then run_c19 ops
   else [[TB (bs "NOMODEL")]].
